@@ -16,6 +16,10 @@ hooks = subprocess.run(["git", "-C", "/repo", "log", "--format=%H", "--grep=^ver
                        text=True).stdout.split()
 fixes = subprocess.run(["git", "-C", "/repo", "log", "--format=%h %s", "--grep=^fix:"], capture_output=True, text=True).stdout.strip().split("\n")
 
+M_OPAQUE = ("symbolic execution of the real functions' MIR (non-inlined dump of /repo on every run; closures and coroutines entered at their start / resume points; callees as opaque tokens or contracts; "
+            "loops cut at the head = one inductive step): every CFG path's feasibility and obligation `pc => goal` decided by z3 with cvc5 as cross-check; a failing obligation is reported only if the unit's native "
+            "driver (the real public API against hand-written expectations) deviates; a few named units are plain call-list facts read off the same dump (see level_claimed and DESIGN.md, Level)")
+OPAQUE_MODULES = {"c16m", "c17m", "c03m", "c05m", "c12m", "c02m", "factsm", "c04m", "c18m", "c11m", "c13m", "c14m"}
 TECH = {
     "kani": "bounded model checking of the compiled crux code with Kani 0.68 / CBMC 6.11 (SAT, CaDiCaL): #[kani::proof] harnesses over symbolic inputs, unwinding assertions on, counterexamples replayed natively",
     "mir": "SMT: optimised MIR of the real functions (loop-free kernels) translated to SMT-LIB2 on every run and decided by z3 (cvc5 cross-check), full machine width, counterexamples replayed natively",
@@ -40,7 +44,10 @@ for pid in ALL:
             "design_ref": "DESIGN.md section 2, " + pid,
         },
         "level_note": "Trusted base / assumptions: " + "; ".join(c.get("assumptions", [])) + ". Outside the claim: " + "; ".join(c.get("outside", [])),
-        "technique": TECH[c["engine"]],
+        "technique": (TECH[c["engine"]] if c.get("module") not in OPAQUE_MODULES else
+                      (M_OPAQUE if c["engine"] == "mir" else "Kani/CBMC bounded model checking of the compiled code (SAT, CaDiCaL; unwinding assertions on; counterexamples replayed natively) plus, for the engine-M part: " + M_OPAQUE))
+        + ("; Response::new, the command builder's async block (coroutine MIR entered where the awaited value arrives) and decode_body are executed with callees as opaque tokens / contracts, a failing obligation there "
+           "being decided by the native driver kani/http_replay" if c.get("module") == "c15" else ""),
     })
 
 na = []
